@@ -10,7 +10,7 @@ CASE_TYPE = "ecase"
 CHECK_FN = 'check_cases "C06"'
 MISMATCH_IS_VIOLATION = False
 RULE = ec.ENG_RULE + "non-trivial = the main answer is non-empty; distinct = distinct (database, query, options)"
-TRUSTED = ["oracles fed to the model from the real code for each case: bm25IDF values (math.Log), the NLP analysis of the query and per-document NLP "
+TRUSTED = ["oracles fed to the model from the real code for each case: bm25IDF values (math.Log), the cleaned lower-cased words of the query (the analysis itself is computed by Model/Nlp.v from them and compared) and per-document NLP "
            "multipliers, the TF-IDF tokenizer output and math.Log table (the ranking itself is computed by Model/Tfidf.v and compared), raw sahilm/fuzzy scores", "correspondence harness", "PrimFloat = Go float64 on amd64 (no FMA fusion)"]
 ASSUMPTIONS = ["platform tags are ASCII (EqualFold modelled by ASCII folding)"]
 coq_case = ec.cecase
@@ -27,6 +27,6 @@ def keep(c):
 def finding_key(c, r):
     return None
 
-LEVEL_TEXT = "Theorems (Props/C06.v): with NLP on every command returned with NLP off is still returned (<= 10 distinct content words, default cap, no cut), each of the first four terms survives term selection at any length, the enhanced term list begins with the user's own terms in order, selection never invents a term - for ANY NLP analysis. Tied to the code by the engine correspondence (NLP on/off pairs at a limit above the database size compared with the model bit for bit)."
-LEVEL_NOTE = 'Partial: ProcessQuery / GetEnhancedKeywords (keyword extraction, no duplicates, same analysis twice) are oracles of the model; their output is fed to the model per case. Trusted: Coq kernel; oracles; harness.'
+LEVEL_TEXT = "Theorems (Props/C06.v): for every query the expanded term list of the NLP model has no duplicates and begins with the keywords of the query in the order typed, each keyword being a typed word or its first listed synonym; with NLP on every command returned with NLP off is still returned (<= 10 distinct content words, default cap, no cut), each of the first four terms survives term selection at any length, the enhanced term list begins with the user's own terms in order, selection never invents a term - for ANY NLP analysis. Tied to the code by the engine correspondence (NLP on/off pairs at a limit above the database size compared with the model bit for bit)."
+LEVEL_NOTE = 'ProcessQuery, the hint rule base and GetEnhancedKeywords are modelled (Model/Nlp.v) and compared with the code on every case; oracles left: regexp cleaning and Unicode lower-casing of the query (the word list), the word tables (data read from the built code through a hook), per-document multipliers. Same analysis on repeated calls is observed (8 calls per case), the model being a function. Trusted: Coq kernel; oracles; harness.'
 TECHNIQUE = "Coq proof over the engine model + differential correspondence (vm_compute, bit-exact scores)"
